@@ -28,6 +28,13 @@ def replay(req):
             'file_builder.FileBuilder._remove_empty_dirs', 'cache.Cache.created_files',
             'cache.Cache.created_dirs', 'cache.Cache.read_immutable'):
         return clean_cases(req)
+    if req.get('property') == 'C03' and func.split('#')[0] in (
+            'file_builder.FileBuilder._set_created_dirs', 'file_builder.FileBuilder._commit',
+            'file_builder.FileBuilder.clean', 'cache.Cache.add_created_dirs',
+            'build_dirs.BuildDirs.created_dirs', 'cache.Cache.created_dirs'):
+        r = foreign_cases(req)
+        if r.get('reproduced'):
+            return r
     if func.split('#')[0] in ('file_builder.FileBuilder._make_dirs',
                               'file_builder.FileBuilder._prepare_file_creation',
                               'file_builder.FileBuilder._dirs_to_make'):
@@ -1572,7 +1579,7 @@ def property_templates(pid):
     T = {
         'C01': [transparency_cases, failed_reuse_case, version_cases, created_files_search],
         'C02': [rollback_cases],
-        'C03': [rollback_cases, clean_cases, failed_setup_cases],
+        'C03': [rollback_cases, clean_cases, failed_setup_cases, foreign_cases],
         'C04': [view_cases, transparency_cases, failed_setup_cases],
         'C05': [effectiveness_cases, failed_reuse_case, version_cases],
         'C06': [version_cases],
@@ -1612,3 +1619,64 @@ def replay_all(req):
             r['templates_run'] = per
             return r
     return {'reproduced': False, 'evaluations': total, 'templates_run': per}
+
+
+# -------------------------------------------------------------------------------------------------
+def foreign_cases(req):
+    """C03: directories and files that no build created are never removed or touched -- also when
+    they stand where an earlier build once had (and later removed) directories of its own.
+    History: build 1 creates gen/sub/a.txt; build 2 no longer does (commit removes gen);
+    the user then makes gen (and gen/sub, gen/README) by hand; a third build or clean follows."""
+    from file_builder import FileBuilder
+    n = 0
+
+    def mk(b, filename, text):
+        write(filename, text)
+
+    def prog(root, with_gen):
+        def f(b):
+            b.build_file(os.path.join(root, 'keep.txt'), 'mk', mk, 'keep')
+            if with_gen:
+                b.build_file(os.path.join(root, 'gen', 'sub', 'a.txt'), 'mk', mk, 'a')
+        return f
+    for last in ('build', 'clean', 'failing build'):
+        for with_readme in (False, True):
+            n += 1
+            base = scratch()
+            try:
+                root = os.path.join(base, 'project')
+                os.mkdir(root)
+                cache = os.path.join(base, 'cache.gz')
+                FileBuilder.build(cache, 'n', prog(root, True))
+                FileBuilder.build(cache, 'n', prog(root, False))
+                if os.path.exists(os.path.join(root, 'gen')):
+                    continue          # (set-up did not remove the stale directory: other checks)
+                os.mkdir(os.path.join(root, 'gen'))
+                if with_readme:
+                    os.mkdir(os.path.join(root, 'gen', 'sub'))
+                    write(os.path.join(root, 'gen', 'README'), 'hand-written')
+                before = {p: v for p, v in snapshot(root).items() if os.sep + 'gen' in p}
+                if last == 'build':
+                    FileBuilder.build(cache, 'n', prog(root, False))
+                elif last == 'clean':
+                    FileBuilder.clean(cache, 'n')
+                else:
+                    def failing(b):
+                        prog(root, False)(b)
+                        raise ValueError('boom')
+                    try:
+                        FileBuilder.build(cache, 'n', failing)
+                    except ValueError:
+                        pass
+                after = {p: v for p, v in snapshot(root).items() if os.sep + 'gen' in p}
+                if before != after:
+                    gone = sorted(os.path.relpath(p, root) for p in before if p not in after)
+                    return {'reproduced': True,
+                            'check': 'a %s removed or touched something no build created' % last,
+                            'input': 'build 1 made gen/sub/a.txt, build 2 dropped it; the user made '
+                                     'gen%s by hand; then %s' % (
+                                         ', gen/sub and gen/README' if with_readme else '', last),
+                            'observed': {'gone': gone}, 'evaluations': n}
+            finally:
+                shutil.rmtree(base, ignore_errors=True)
+    return {'reproduced': False, 'evaluations': n}
